@@ -30,3 +30,12 @@ META = {
         ],
     },
 }
+
+MANIFEST_TEXT = {
+    "C01": {
+        "level_text": "Differential round-trip monitor over a class grid: every value class, null pattern, bitmap-boundary length, transport and residency named in the property is driven through the real ingestion and query path and each returned cell is compared with the supplied one; the codec signatures actually taken are recorded and required by a coverage floor. Exhaustive over the named classes, sampled inside each class.",
+        "design_ref": "DESIGN.md section 3, C01",
+        "level_note": "Trusted: harness model and generators; the wire encoder written against the capnp schema. Values inside a class are sampled (seeded).",
+        "technique": "runtime differential monitor (cell-by-cell vs reference model) + panic/hang monitors + codec coverage monitor",
+    },
+}
